@@ -317,8 +317,7 @@ void c27_case(Ctx& c, Rng& r) {
 HX_PROPERTY("C27", c27_case);
 
 // ------------------------------------------------------------------------------------ C28 (+ C02 control-plane TTL)
-void c28_case(Ctx& c, Rng& r) {
-    const auto scenario = c.cur_case % 4;
+void c28_scenarios(Ctx& c, Rng& r, std::uint64_t scenario, const std::string& pfx) {
     Config cfg = base_config(r);
     std::uint64_t sig = scenario;
     if (scenario == 0) {
@@ -367,10 +366,19 @@ void c28_case(Ctx& c, Rng& r) {
         cfg.default_chunk_ttl = seconds(mn + (mx - mn) / 2);
         Daemon d(cfg);
         for (int q = 0; q < 6; ++q) {
-            const auto k = r.below(14);
+            const auto k = r.below(17);
             std::optional<std::string> ttl;
             bool want = false;
             auto num = [&](std::int64_t v) { ttl = std::to_string(v); want = v >= mn && v <= mx; };
+            if (k >= 14) {
+                // values that are an in-window TTL modulo 2^32 / 2^31 / 2^16 / 2^63: far outside the window as numbers
+                const std::uint64_t inwin = static_cast<std::uint64_t>(mn + static_cast<std::int64_t>(r.below(static_cast<std::uint64_t>(mx - mn + 1))));
+                static const std::uint64_t mod[] = {1ull << 32, 3ull << 32, 1ull << 40, 1ull << 31, 1ull << 16, 1ull << 63, (1ull << 32) * 1000};
+                const std::uint64_t v = mod[r.below(7)] + inwin;
+                ttl = std::to_string(v);
+                want = v >= static_cast<std::uint64_t>(mn) && v <= static_cast<std::uint64_t>(mx);
+                c.note("ttl.values-congruent-to-an-in-window-ttl");
+            } else
             if (k == 0) num(mn); else if (k == 1) num(mn - 1); else if (k == 2) num(mx); else if (k == 3) num(mx + 1);
             else if (k == 4) num(0); else if (k == 5) { ttl = "-5"; want = false; } else if (k == 6) { ttl = "18446744073709551615"; want = false; }
             else if (k == 7) { ttl = "9223372036854775808"; want = false; } else if (k == 8) { static const char* bad[] = {"abc", "", " 60", "60 ", "6e1", "0x40", "60s", "+60", "60.0"}; ttl = bad[r.below(9)]; want = false; }
@@ -383,15 +391,15 @@ void c28_case(Ctx& c, Rng& r) {
             const auto resp = raw_request(d.port, headers(h, &r), r.bytes(16));
             c.note(want ? "ttl.in-window-requests" : "ttl.out-of-window-requests");
             const auto desc = J().kv("min", mn).kv("max", mx).kv("ttl", ttl ? *ttl : std::string("<absent>")).kv("status", resp.field("STATUS")).kv("code", resp.code()).str();
-            if (!resp.complete) { c.violation("C28:ttl:no-response", desc); continue; }
-            if (resp.ok() != want) c.violation(want ? "C28:ttl:in-window-ttl-refused" : "C28:ttl:out-of-window-ttl-accepted", desc);
-            if (!want && resp.code().find("TTL") == std::string::npos) c.violation("C28:ttl:refusal-without-ttl-error-code", desc);
-            if (!want && d.node->chunk_store_.chunks_.size() != before_chunks) c.violation("C28:ttl:refused-store-left-a-chunk", desc);
+            if (!resp.complete) { c.violation(pfx + ":ttl:no-response", desc); continue; }
+            if (resp.ok() != want) c.violation(pfx + (want ? ":ttl:in-window-ttl-refused" : ":ttl:out-of-window-ttl-accepted"), desc);
+            if (!want && resp.code().find("TTL") == std::string::npos) c.violation(pfx + ":ttl:refusal-without-ttl-error-code", desc);
+            if (!want && d.node->chunk_store_.chunks_.size() != before_chunks) c.violation(pfx + ":ttl:refused-store-left-a-chunk", desc);
             if (want && resp.ok()) {
                 // the lifetime actually created lies inside the window
                 std::int64_t longest = 0;
                 for (auto& [kk, rec] : d.node->chunk_store_.chunks_) longest = std::max<std::int64_t>(longest, rec.expires_at.time_since_epoch().count() - s0);
-                if (longest > mx * NS) c.violation("C28:ttl:created-lifetime-above-max", desc);
+                if (longest > mx * NS) c.violation(pfx + ":ttl:created-lifetime-above-max", desc);
             }
             vclk::advance_s(6);
             sig = hx::mix(sig, k);
@@ -506,7 +514,11 @@ void c28_case(Ctx& c, Rng& r) {
     c.sig(hx::mix(sig, c.cur_case % 512));
     if (c.cur_case % 97 == 0) c.sample(J().kv("scenario", scenario == 0 ? "payload-cap" : (scenario == 1 ? "ttl-window" : (scenario == 2 ? "store-pow" : "rate-limit"))).str());
 }
+void c28_case(Ctx& c, Rng& r) { c28_scenarios(c, r, c.cur_case % 4, "C28"); }
 HX_PROPERTY("C28", c28_case);
+// the control-plane clause of C02 ("the control plane refuses STORE TTLs outside that window") on its own
+void c02c_case(Ctx& c, Rng& r) { c28_scenarios(c, r, 1, "C02"); }
+HX_PROPERTY("C02c", c02c_case);
 
 // ------------------------------------------------------------------------------------ C29
 std::vector<std::string> split_lines(const std::string& s) {
